@@ -49,8 +49,8 @@ def is_libfile(a: str) -> bool:
 def kind_clike(a: str) -> str:
     if a in ('-I', '-L'):
         return UNDEFINED
-    if a in ('-D', '-U', '-isystem'):
-        return PLAIN            # "defined by what comes after them": never de-duplicated
+    if a in ('-D', '-U', '-isystem', '-l', '-Wl,-l'):
+        return PLAIN            # "defined by what comes after them": never de-duplicated (two-token spelling `-l m`)
     if a.startswith(('-I', '-L')):
         return PREPEND
     if a.startswith(('-D', '-U', '-isystem')):
